@@ -170,6 +170,20 @@ pub fn fault_case_ext(dir: &std::path::PathBuf, word: &[usize], leave_after: Opt
     fault_case_late(dir, word, leave_after, final_order, complete, None, verbose)
 }
 
+/// Let virtual time pass (in steps of one second, at most `cap_s`) until the tracker has been asked
+/// `target` times: the checks do not depend on the retry schedule of the announce task.
+fn wait_for_announces(w: &mut FullWorld, target: usize, cap_s: usize, steps: &mut u64) {
+    let mut waited = 0;
+    loop {
+        w.step(&FEv::Advance(1000));
+        *steps += 1;
+        waited += 1;
+        if w.announces.borrow().len() >= target || waited >= cap_s || w.hung.is_some() {
+            break;
+        }
+    }
+}
+
 /// `late_fault`: one more failed announce AFTER the first good reply (the tracker flaps). It only
 /// matters when two announce tasks are alive (a second connection ended during the outage): the one
 /// that did not get the good reply fails once more before it succeeds.
@@ -278,10 +292,10 @@ pub fn fault_case_late(dir: &std::path::PathBuf, word: &[usize], leave_after: Op
                 )),
             );
         }
-        w.step(&FEv::Advance(1000));
-        steps += 1;
+        // the next attempt: whenever the announce task chooses to make it (pinned: one second later)
+        wait_for_announces(&mut w, 2 + k + 1, 130, &mut steps);
     }
-    // the good announce has been answered by now (retry delay is 1 s); give it the remaining slack
+    // the good announce has been answered by now; give it some slack
     w.step(&FEv::Advance(5000));
     steps += 1;
     if verbose {
@@ -367,9 +381,9 @@ pub fn budget_case_ext(dir: &std::path::PathBuf, j: usize, word: &[usize], relis
     // A9 leaves: no candidates are left, the client announces a third time
     w.step(&FEv::Close(9));
     steps += 1;
-    for _ in 0..word.len() {
-        w.step(&FEv::Advance(1000));
-        steps += 1;
+    let base = w.announces.borrow().len();
+    for k in 0..word.len() {
+        wait_for_announces(&mut w, base + k + 1, 130, &mut steps);
     }
     w.step(&FEv::Advance(5000));
     steps += 1;
@@ -520,9 +534,15 @@ pub fn busy_manager_case_ext(dir: &std::path::PathBuf, word: &[usize], paused_fr
             w.step(&Ev::PauseManager, &[]);
             steps += 1;
         }
-        now += 1_050;
-        w.step(&Ev::AdvanceTo(now), &[]);
-        steps += 1;
+        // until the announce task makes its next attempt, whatever its retry schedule
+        for _ in 0..130 {
+            now += 1_050;
+            w.step(&Ev::AdvanceTo(now), &[]);
+            steps += 1;
+            if *announces.borrow() >= k + 1 {
+                break;
+            }
+        }
         if *announces.borrow() != k + 1 {
             return (steps, Some(("MACHINERY", format!("expected {} announces after {} retries, saw {}", k + 1, k, announces.borrow()))));
         }
@@ -575,7 +595,7 @@ fn fault_words(max_n: usize, all_upto: usize) -> Vec<Vec<usize>> {
 }
 
 fn fault_part(ctx: &Ctx) -> (u64, u64, Vec<Value>) {
-    let words = fault_words(ctx.tier.pick(70, 100), ctx.tier.pick(3, 5));
+    let words = fault_words(ctx.tier.pick(120, 130), ctx.tier.pick(3, 5));
     // every fault word alone, and with the extra peer leaving after each prefix of <= 3 failures
     // the good reply lists P (still connected), Q (left) and R (new): in every order for the short
     // words (candidates are taken from the end of the list), in one order for the long ones
@@ -799,7 +819,7 @@ pub fn run(ctx: &Ctx) -> Outcome {
     o.set("fault_sequences", json!(fault_runs));
     o.set("evaluations", json!(sigma + docs.len() as u64));
     o.set("distinct_nontrivial", json!(accepted));
-    o.set("rule", json!(format!("(a) every string over the C16 alphabet of length 0..={} through TrackerResp::from_bencode (totality); structured replies = peers list of 0..3 entries drawn from 11 entry shapes (2 good, 9 malformed) or missing/ill-typed x 5 interval shapes x 5 failure-reason shapes (absent, text, empty, non-UTF-8, ill-typed), all distinct; non-trivial = structured replies read as success. (b) full-session world (real event_loop, tracker task, retry loop, handle_tracker_cmd, spawn_peer_handler over the seams): tracker outcome words F^n.S for every F-word of length <= 3 (thorough 4) over the four fault kinds (refused, HTTP 500, garbage body, failure reason) and the four homogeneous words for every longer n up to 70 (thorough 100), with a live connection P, each word alone and with another connection ending after 0..2 failures (a KillReq in the middle of the fault sequence); after every failure P toggles choke/unchoke and the manager must have processed it in that quiescent step; after S the listed peers must be contacted; late-fault cases: for words of length 2..3 with a second connection ending during the outage (two announce tasks alive) the tracker fails once more after its first good reply, every fault kind; after every case the probe connection toggles once more and must be served; completion cases: for words of length 2..3 (and the long ones) P delivers every piece after 0..1 failures and another connection ends, so the extractor runs and finishes during the outage, same obligations; busy-manager cases (pumped world): for every fault word of length 1..3 and every point 1..=n from which the manager stays away from its queues (it awaits something inside a handler) until after the good reply, the reports pile up in the tracker queue; back at work it must dial the listed peer; also with a second connection ending after the good reply was queued (its KillReq is worked off before the TrackerResp) and every later announce refused: the manager must not end up waiting for an announce that cannot succeed; empty-reply cases: 0..2 good replies that list nobody, each followed by a connection ending with no candidate left (an announce is owed each time), then a reply listing a new peer, which must be contacted; budget cases: the good reply (after 0..3 faults) arrives while 7..=13 connected peers are interesting (15 connections from two earlier announces): no panic or hang, still serving, min(3, max(0, 11 - j)) of the 3 listed peers dialled at once and the others exactly once as three connections end; states = fault words, transitions = events executed", max_len)));
+    o.set("rule", json!(format!("(a) every string over the C16 alphabet of length 0..={} through TrackerResp::from_bencode (totality); structured replies = peers list of 0..3 entries drawn from 11 entry shapes (2 good, 9 malformed) or missing/ill-typed x 5 interval shapes x 5 failure-reason shapes (absent, text, empty, non-UTF-8, ill-typed), all distinct; non-trivial = structured replies read as success. (b) full-session world (real event_loop, tracker task, retry loop, handle_tracker_cmd, spawn_peer_handler over the seams): tracker outcome words F^n.S for every F-word of length <= 3 (thorough 4) over the four fault kinds (refused, HTTP 500, garbage body, failure reason) and the four homogeneous words for every longer n up to 120 (thorough 130), with a live connection P, each word alone and with another connection ending after 0..2 failures (a KillReq in the middle of the fault sequence); after every failure P toggles choke/unchoke, and the clock runs until the tracker has been asked once more (at most 130 s: the cases do not depend on the retry schedule) and the manager must have processed it in that quiescent step; after S the listed peers must be contacted; late-fault cases: for words of length 2..3 with a second connection ending during the outage (two announce tasks alive) the tracker fails once more after its first good reply, every fault kind; after every case the probe connection toggles once more and must be served; completion cases: for words of length 2..3 (and the long ones) P delivers every piece after 0..1 failures and another connection ends, so the extractor runs and finishes during the outage, same obligations; busy-manager cases (pumped world): for every fault word of length 1..3 and every point 1..=n from which the manager stays away from its queues (it awaits something inside a handler) until after the good reply, the reports pile up in the tracker queue; back at work it must dial the listed peer; also with a second connection ending after the good reply was queued (its KillReq is worked off before the TrackerResp) and every later announce refused: the manager must not end up waiting for an announce that cannot succeed; empty-reply cases: 0..2 good replies that list nobody, each followed by a connection ending with no candidate left (an announce is owed each time), then a reply listing a new peer, which must be contacted; budget cases: the good reply (after 0..3 faults) arrives while 7..=13 connected peers are interesting (15 connections from two earlier announces): no panic or hang, still serving, min(3, max(0, 11 - j)) of the 3 listed peers dialled at once and the others exactly once as three connections end; states = fault words, transitions = events executed", max_len)));
     o.set("sigma_strings", json!(sigma));
     o.set("structured_replies", json!(docs.len()));
     let picks = ctx.seeded_pick(docs.len(), 4);
